@@ -230,9 +230,10 @@ func (h *H) onStart(w *W, jr *JobRec, s int) {
 		if c.W != w {
 			continue
 		}
-		if c.Op == "Resume" || c.Op == "Restart" || strings.HasPrefix(c.Op, "Bind") {
-			break // (a later Bind may start an initiated worker)
+		if c.Op == "Resume" || c.Op == "Restart" {
+			break
 		}
+		// (a Bind starts an Initiated worker only, and no barrier returns nil on an Initiated worker)
 		if (c.Op == "PauseAndWait" || c.Op == "Stop" || c.Op == "WaitAndStop") && c.Done && c.Err == nil && c.Ret < s && h.barrierApplies(c) {
 			h.viol("C09", "C09.start-after-"+c.Op, "a worker function started after "+c.Op+" returned and before Resume/Restart")
 			break
